@@ -512,3 +512,14 @@ unit("C06", "readout.replace")(_readout_replace)
 unit("C06", "runs_independent")(_C05.run_one_per_entry)
 unit("C06", "calib.fitness")(_C11.fitness_sum)
 unit("C06", "calib.build_processors")(_C11.build_processors_unit)
+
+
+
+def _one_task_per_run(u):
+    """C07.fileindex (imported late): on the parallel path every run is ITS OWN task (parameters and file indices chunked one cell per task), so
+    a run that fails -- or is never computed -- has no effect on the result of another run."""
+    from . import C07 as _C07t
+    return _C07t.fileindex(u)
+
+
+unit("C06", "parallel.one_task_per_run")(_one_task_per_run)
